@@ -171,7 +171,7 @@ CLAIMED = {
              'implementation (FFT-ordered mode numbers, m^2, inner Neumann condition for m=0 only, chi convention for the m=0 mode, '
              'adiabatic response on all other modes, kinetic electrons without it), on every rank of the listed process grids, and its '
              'imaginary part is identically zero. NOT decided: that fft/ifft round-trip to the identity (the DFT definition is the '
-             'contract used), the solved pipeline for theta counts whose twiddle factors lie outside Q(i, sqrt 3) (for those only the table of squared mode numbers of the real solver is compared with the FFT ordering, concretely, for every theta count up to 64, thorough 600), the equilibrium as a fixed point of the complete time step.',
+             'contract used), the solved pipeline for theta counts whose twiddle factors lie outside Q(i, sqrt 3) (for those the table of squared mode numbers of the real solver is compared with the FFT ordering, concretely, for every theta count up to 64, thorough 600, and the real float pipeline is compared with the float reference for theta counts 5 and 7, thorough also 9, 10, 16, on distributed grids after an earlier solve), the equilibrium as a fixed point of the complete time step.',
         design_ref='DESIGN.md 5 (C15)',
         note=TRUST + 'scipy.fftpack.fft/ifft by their definition (contract); spsolve exact on the concrete rational systems; rational n0, Te profiles '
                      'passed through the constructor keywords.'),
@@ -182,7 +182,7 @@ CLAIMED = {
              'local density entry equals the exact velocity integral of the spline interpolating f along v at the entry\'s global '
              '(r,theta,z) (independent exact weights = oracle collocation + oracle basis integrals) minus, for the perturbed density, '
              'the equilibrium at the global radius (exp/tanh/sqrt uninterpreted). Linearity, zero for the equilibrium and independence '
-             'of the decomposition follow from that identity. Variants: another finder built before, perturbation amplitude 0 with an arbitrary distribution, and a cold plasma whose tabulated equilibrium is exactly 0.0 in the velocity tails (that one decided by the real float run against the exact weights, since exp > 0 in the exact model).',
+             'of the decomposition follow from that identity. Variants: another finder built before, finders on v spaces that no longer exist, profiles centred off the mid-radius, perturbation amplitude 0 with an arbitrary distribution, and a cold plasma whose tabulated equilibrium is exactly 0.0 in the velocity tails (that one decided by the real float run against the exact weights, since exp > 0 in the exact model).',
         design_ref='DESIGN.md 4 C16',
         note=TRUST + 'Bounds: extents (3..4,2,3), process grids {1,2}^2 (thorough {1,2,3}^2), listed v spline spaces. Complex storage not distinguished.'),
     'C17': dict(
@@ -203,7 +203,7 @@ CLAIMED = {
         text='Partial claim. (a) For all extents, the write slices of p ranks tile each dataset dimension and the read slices of p\' ranks '
              'tile it too (p,p\'<=4, thorough 8), so a checkpoint can be read back under a different process count. (b) The statements that '
              'select the checkpoint in setupFromFile / Grid.loadFromFile, extracted from the current source and run on symbolic file names '
-             'produced by the writer\'s own format expression, always select the largest time (times < 10^8, 2-3 files). (c) The real driver '
+             'produced by the writer\'s own format expression, always select the largest time (times < 10^8, 2-3 files; file modification times arbitrary). (c) The real driver '
              'under recording stubs, symbolic start/end times, every saveStep<=3 (thorough 4), arbitrary clock, <=3 (6) iterations: no '
              'exception on any path, identical operator sequence in every iteration, the final time is checkpointed exactly once and no '
              'time twice, so a restart resumes at the last time reached and N + M steps equal N+M steps at the level of control flow. (d) The real get_constants / eval_expr on files with chains of symbolic expressions: for every order in which the keys are consumed (solver-chosen permutation, 6-key files) and all numeric root values, every constant equals its expression over the roots and absent constants keep their defaults; the text written by Constants.__str__ (what setupSave stores), read back by get_constants, reproduces every public constant for symbolic values (zero included) of six constants. (e) Concretely, on an in-memory stand-in for the h5py calls: the real writeH5Dataset on P simulated ranks stores the global field in the ordering of the layout written and records that ordering in the Layout attribute, and the real loadFromFile on a different process grid reproduces the field (latest and requested time); a restart builds the same coordinates and knots as the fresh set-up on a domain that is asymmetric in every direction.',
